@@ -228,7 +228,7 @@ def c07_queries(enc):
     qs.append(('exactly-once/no-duplicate-no-foreign', dup, [nf]))
     lost = []
     lostw = []
-    for k in range(K + 1):
+    for k in [K]:    # stuttering is allowed, so a state reachable at any step is reachable at step K
         Sk = enc.S[k]
         qk = enc.quiescent(Sk)
         for i in enc.ids:
@@ -244,7 +244,7 @@ def c07_queries(enc):
     parkers = [t for t in enc.threads if t.park_locs]
     if parkers:
         qs.append(('witness/receiver-parks', z3.Or(*[enc.S[K]['parked:' + t.name] for t in parkers]), [nf]))
-    panics = [enc.at_term(t, enc.S[k], 'panic') for k in range(K + 1) for t in enc.threads]
+    panics = [enc.at_term(t, enc.S[k], 'panic') for k in [K] for t in enc.threads]
     qs.append(('no-panic-in-queue-code', z3.Or(*panics), [nf]))
     return qs
 
